@@ -1,9 +1,70 @@
 package main
 
-var rule = "TODO"
-var assumptions = []string{"TODO"}
-var notCovered = []string{"TODO"}
+import "fmt"
 
-func spaceDescription(thorough bool) map[string]any { return nil }
+var rule = "mode I (bounded-exhaustive enumeration, no scheduler, no sampling): every element of the explicitly generated space " +
+	"{family} x {negotiated compression configuration} x {message sequence over the size x content alphabet} x {delivery variant} is executed on fresh " +
+	"transports and judged by an independent reference: (a) peer Read returns the same messages byte for byte, in order, one per call, nothing extra; " +
+	"(b) the recorded raw frames / stream bytes / datagrams are decoded by a reference implementation written from the framing " +
+	"(WebSocket: one binary frame per message = the message, or one complete raw DEFLATE stream (RFC 1951 decoder written for this harness, strict about " +
+	"back-references reaching before the window and about trailing bytes) per message, with, for context takeover, a preset dictionary = last 2^bits bytes of the " +
+	"earlier messages of that direction; QUIC/WebTransport stream: 4-byte big-endian length + payload, payload = message or one dictionary-less DEFLATE stream; " +
+	"datagrams: seq(4) maxIdx(2) idx(2) + <=1188 payload bytes, sequence numbers 0,1,2.., segments in order); " +
+	"(c) Tx counter of the writer = Rx counter of the reader = bytes actually framed (checked after every WebSocket message, at the end for streams/datagrams). " +
+	"WebSocket: websocket.New on an in-memory websocket.Conn pair (FIFO of frames, raw frames and message types recorded); both directions are exercised on the same pair " +
+	"(duplex: step i sends seq[i] A->B and seq[n-1-i] B->A, so every sequence occurs in each direction; simplex: A->B only with three frame-reader delivery modes). " +
+	"QUIC: quic.New on a fake quic.Connection (in-memory uni-streams and datagrams); WebTransport: Transport.Write/decodeFrom/receiveMessage driven through an " +
+	"overlay-added in-package constructor on a fake send stream (a *webtransport.Session cannot be faked). Stream bytes are delivered to the reader in every split " +
+	"into <=3 fragments for the small-message families (short reads: a Read never spans two fragments) and in the structural splits (inside/after the length prefix, " +
+	"at and around the first frame end, before the last byte) for the large-message families. " +
+	"Library panics are recovered per case; the enumeration runs in worker processes so that an unrecoverable panic in a library goroutine is reported, " +
+	"not suffered; per-case watchdog. CONCURRENT WRITERS ARE NOT PART OF THIS CHECK (they are explored under the scheduler, mode S); " +
+	"the three real WebSocket back-ends (build tags) and real QUIC/WebTransport sessions are not exercised here. " +
+	"distinct_nontrivial = number of cases; all cases are distinct by construction (enumeration without repetition)."
+
+var assumptions = []string{
+	"the in-memory websocket.Conn honours the contract of the real back-ends used by Transport: Writer().Close() delivers exactly one message of the given type, Reader() returns the next whole message; frames are never lost, duplicated or reordered",
+	"the fake quic.Connection delivers stream bytes and datagrams loss-free and in order; datagram loss/reordering is the subject of C14",
+	"the reference DEFLATE decoder and the reference framing were written from RFC 1951 and from the documented framing (compress.Config: WindowSize = 2^WindowBits; transport.go comments) independently of compress/flate",
+	"the WebTransport constructor used here (inject/transport/webtransport/zz_verif_c13.go) copies the field initialisation and encode/decode selection of webtransport.New verbatim; New itself needs a real session and is not executed",
+	"message contents are three fixed deterministic patterns (zeros, period-7 text, a fixed xorshift32 byte stream); a message is a prefix of its pattern, so equal-content messages share prefixes and the dictionaries matter",
+	"QUIC and WebTransport compress per message whatever takeover mode was negotiated (transport/quic/transport.go:83-90); the reference accepts exactly that",
+}
+
+var notCovered = []string{
+	"concurrent writers (mode S harness)",
+	"window-relative sizes for window bits 32 (W-1..2W+3 around 4 GiB are not representable); bits 32 is run with sizes {0,1,65535,65536,1 MiB}",
+	"webtransport.New / the WebTransport reader goroutines and WriteUnreliable (need a concrete *webtransport.Session); the WebTransport datagram receive path is fed with datagrams produced by the QUIC transport",
+	"real coder/gorilla/nhooyr connections and real QUIC/WebTransport loopback sessions",
+	"every split of streams longer than the small-message families (structural splits only)",
+	"quick tier: length-3 WebSocket sequences for the stateless modes (off, per-message) only with one content per sequence; thorough tier: length-4 sequences only for context takeover and only with one content per sequence",
+}
+
+func spaceDescription(thorough bool) map[string]any {
+	ws := wsGrid(thorough)
+	st := streamGrid(thorough)
+	sizes := map[string][]int{}
+	for _, c := range ws {
+		sizes[fmt.Sprintf("bits=%d", c.Bits)] = sizesFor(c.Bits)
+	}
+	m := map[string]any{
+		"ws_configs":              len(ws),
+		"ws_config_grid":          "off; {per-message, context-takeover} x level x window bits (see levels/bits)",
+		"stream_configs":          len(st),
+		"contents":                contentName,
+		"sizes_per_window_bits":   sizes,
+		"mib_letter":              "1 MiB x 3 contents: length 1 (quick), plus pairs with itself / 1 byte / 64 KiB of the same content (thorough, WebSocket)",
+		"ws_sequence_lengths":     "quick: <=2 full alphabet all modes, 3 full alphabet for context takeover, 3 same-content for off/per-message; thorough: <=3 full alphabet all modes, 4 same-content for context takeover",
+		"stream_sequence_lengths": "quick: <=2 full alphabet (structural splits), <=3 over sizes {0,1,2,5} x {zeros,text} (every split); thorough: + length 3 same-content (structural splits), small alphabet with 3 contents",
+		"datagram_sizes":          dgramSizes,
+		"negotiation_variants":    []string{"level0 (clevel=0 means off)", "basebits (window bits from Config.CompressConfig)", "validated (clevel filled in by Validate)"},
+	}
+	if thorough {
+		m["levels"], m["bits"] = []int{1, 2, 3, 4, 5, 6, 7, 8, 9}, []int{0, 1, 8, 9, 15, 16, 32}
+	} else {
+		m["levels"], m["bits"] = []int{1, 6, 9}, []int{0, 8, 15}
+	}
+	return m
+}
 
 func runLoop(c Case) []V { return nil }
